@@ -24,6 +24,7 @@ Json Cmd::toJson() const {
   Json e = Json::arr();
   for (auto& kv : env) e.push(Json::obj().set("k", util::hex(kv.first)).set("v", util::hex(kv.second)));
   j.set("env", e).set("extra", strList(extra)).setb("always", always).setb("inherit_env", inheritEnv).setb("safe_interrupt", safeInterrupt);
+  j.setb("strict_extra", strictExtra);
   j.setb("allow_modified", allowModified).setb("allow_missing", allowMissing).set("signature", util::hex(signature)).set("contents", util::hex(contents));
   j.set("expected", strList(expected)).set("roots", strList(roots)).set("pad", strList(pad)).set("workdir", util::hex(workdir));
   return j;
@@ -45,6 +46,7 @@ Cmd Cmd::fromJson(const Json& j) {
   c.safeInterrupt = j.getb("safe_interrupt", true);
   c.allowMissing = j.getb("allow_missing");
   c.allowModified = j.getb("allow_modified");
+  c.strictExtra = j.getb("strict_extra");
   c.signature = util::unhex(j.gets("signature"));
   c.contents = util::unhex(j.gets("contents"));
   c.expected = listStr(j.geta("expected"));
@@ -325,6 +327,10 @@ ToolResult toolCompute(const Cmd& c, const ReadFn& read) {
   }
   for (auto& e : r.reads)
     if (!declared.count(e.first)) r.discovered.push_back(e.first);
+  if (c.strictExtra && !r.missing.empty()) {
+    r.error = "cannot find " + r.missing[0];   // a compiler that stops at a missing header
+    return r;
+  }
   util::Hasher h;
   h.u64(c.salt);
   for (auto& kv : c.env) {
